@@ -66,7 +66,7 @@ DiffTypeOutputIterator equally_split(DiffType n, size_t p,
         start += (static_cast<DiffType>(i) < split) ? (chunk_length + 1) :
                                                       chunk_length;
         if (start >= n)
-            start = n - 1;
+            start = (n > 0) ? n - 1 : 0;
     }
     *s++ = n;
 
